@@ -129,3 +129,19 @@ Example C04_example_oversize :
 Proof.
   apply oversize_rejected_unchanged with (p := ex_pL); vm_compute; reflexivity.
 Qed.
+
+(* the blockstore over a caller-owned file (OpenReadWriteFile): after Discard the file is still open;
+   Roots still answers, every finalize / write is refused and the file does not change *)
+Definition ex_fops : list sop :=
+  [OpPut ex_cA ex_data; OpDiscard; OpRoots; OpFinalizeRO; OpFinalize; OpPut ex_cX ex_data; OpHas ex_cA; OpRoots].
+
+Example C04_example_callers_file_outs :
+  outs (trace (impl_step dec_header_canon FBf) ex_s0 ex_fops)
+  = [ONil; ONil; OKeys ex_roots; OErr EOther; OErr EOther; OErr EClosed; OErr EClosed; OKeys ex_roots] /\
+  outs (trace (impl_step dec_header_canon FBf) ex_s0 ex_fops) = outs (trace (spec_step FBf ex_o ex_roots) m_empty ex_fops).
+Proof. vm_compute. split; reflexivity. Qed.
+
+Example C04_example_callers_file_frozen :
+  let s1 := last (map fst (trace (impl_step dec_header_canon FBf) ex_s0 (firstn 2 ex_fops))) ex_s0 in
+  Forall (fun s' => ws_file s' = ws_file s1) (map fst (trace (impl_step dec_header_canon FBf) s1 (skipn 2 ex_fops))).
+Proof. cbn zeta. apply file_frozen. left. vm_compute. reflexivity. Qed.
